@@ -321,6 +321,7 @@ Eval(e, c) ==
     [] e.op = "var" -> IF e.name \in DOMAIN c.vars THEN c.vars[e.name] ELSE ErrV
     [] e.op = "neg" -> LET v == Eval(e.a, c) IN IF Bad(v) THEN v ELSE NV(Neg(ToNumX(c.f, v)))
     [] e.op = "fn"  -> EvalFn(e, c)
+    [] e.op = "badcall" -> ErrV            \* a core function called with the wrong number of arguments (3.2: an error)
     [] e.op = "xfn" -> EvalXfn(e, c)
     [] e.op = "bin" ->
          IF e.o = "or" THEN
